@@ -48,6 +48,18 @@ func (w *Proxy) signal() {
 		if cv := w.connOf(r); cv != nil && cv.pending > 0 {
 			ph = "request_bytes_in_flight"
 		}
+		for _, c := range w.h2clients {
+			if c.Unsent(r) > 0 {
+				ph = "request_bytes_in_flight" // the client still holds back a part of the body (flow control)
+			}
+			if ph == "request_bytes_in_flight" && c.Knows(r) {
+				// HTTP/2: MOSN knows a request from its HEADERS on; a body still on its way is another phase
+				ph = "request_body_in_flight"
+				if !c.HeadersDelivered(r) {
+					ph = "request_headers_in_flight"
+				}
+			}
+		}
 		if len(r.Upstream) > 0 {
 			ph = "waiting_for_upstream"
 			if len(r.Upstream[0].Sent) > 0 {
